@@ -388,38 +388,5 @@ fn add_label_vacant() {
         None => assert!(false, "C23.record: the label is recorded under its upper-cased name"),
     }
 }
-/// A name already in the table (whatever the letter case of the new spelling): same address -> accepted and the
-/// first record is kept; different address -> OverlappingLabels naming the first occurrence and the new one, table
-/// unchanged.  An external declaration counts as address 0 like any other record.  BOUNDED: one entry "A", query "a";
-/// one obligation per outcome.
-fn add_label_occupied(conflict: bool) {
-    let (addr0, ext0, addr, external): (u16, bool, u16, bool) = (kani::any(), kani::any(), kani::any(), kani::any());
-    kani::assume(!ext0 || addr0 == 0);
-    kani::assume((addr != addr0) == conflict);
-    let mut m: HashMap<String, SymbolData> = HashMap::new();
-    m.insert(String::from("A"), SymbolData { addr: addr0, src_start: 3, external: ext0 });
-    let r = add_label(&mut m, &Label::new(String::from("a"), 9..10), addr, external);
-    kani::cover!(!conflict || ext0, "redefinition of an external declaration at a non-zero address reachable");
-    match r {
-        Ok(()) => assert!(!conflict, "C02.label: a label bound to two different addresses is rejected (an external declaration counts as address 0)"),
-        Err(e) => {
-            assert!(conflict, "C02.label: the same label at the same address is accepted");
-            assert!(matches!(e.kind, AsmErrKind::OverlappingLabels), "C02.kind: the error names the violated condition");
-            match &e.span {
-                ErrSpan::Two([s1, s2]) => assert!(*s1 == (3..4) && *s2 == (9..10), "C26.span: the error covers the first occurrence and the offending spelling of the label"),
-                _ => assert!(false, "C26.span: two spans"),
-            }
-            std::mem::forget(e);
-        }
-    }
-    assert!(m.len() == 1, "C23.list: no second entry");
-    match m.iter().next() {
-        Some((k, d)) => assert!(k.as_str() == "A" && d.addr == addr0 && d.src_start == 3 && d.external == ext0, "C23.record: the first occurrence's record is kept"),
-        None => assert!(false, "C23.record: the label stays recorded"),
-    }
-    std::mem::forget(m);
-}
-#[kani::proof] #[kani::stub(std::hash::RandomState::new, stub_random_state)] #[kani::unwind(6)]
-fn add_label_same_address() { add_label_occupied(false) }
-#[kani::proof] #[kani::stub(std::hash::RandomState::new, stub_random_state)] #[kani::unwind(6)]
-fn add_label_conflict() { add_label_occupied(true) }
+// (The occupied case -- same name again at the same / a different address -- was written as two further obligations;
+//  `HashMap::entry` on a non-empty `HashMap<String,_>` reached no verdict in 50 min each, see DESIGN section 8.)
